@@ -5,6 +5,7 @@ import ChessVerif.Model.Movegen
 import ChessVerif.Spec.Rules
 import ChessVerif.Lemmas.Attack
 import ChessVerif.Lemmas.Refine
+import ChessVerif.Lemmas.Material
 namespace Chess.Props
 
 theorem contains_iff_count (k : Nat) (l : List Nat) : l.contains k = decide (1 ≤ countEq k l) := by
@@ -91,9 +92,19 @@ theorem C07_check_after_move (T : ZTable) (p : Position) (m : Spec.SMove) (ok : 
     exact this
   rw [isInCheck_eq _ p.side k ok.side hb hk hnear, hbd]
 
-/-- the full statement for the geometric predicates (kept visible).  The in-check half is `C07_check` above (under
-    its explicit hypotheses, which `Spec.wf` implies and the driver evaluates at every state line); the material half is
-    decided by the three-way correspondence: insufficient material = bare kings or a single minor -/
+/-- C07 (material): the engine's test — a packed vector of piece counts compared with five constants — answers "not
+    enough mating material" exactly for bare kings or a single minor piece, whenever no piece kind occurs 16 or more times
+    (each count has a nibble; 16 pawns of one colour would alias a knight — impossible on a legal board) -/
+theorem C07_material (p : Position) (hb : ∀ x, x ∈ p.board → x ≤ 12)
+    (hc : countOf p.board 1 < 16 ∧ countOf p.board 2 < 16 ∧ countOf p.board 3 < 16 ∧ countOf p.board 4 < 16 ∧ countOf p.board 5 < 16 ∧
+          countOf p.board 7 < 16 ∧ countOf p.board 8 < 16 ∧ countOf p.board 9 < 16 ∧ countOf p.board 10 < 16 ∧ countOf p.board 11 < 16) :
+    enoughMaterial p = !Spec.insufficientMaterial p.board := by
+  unfold enoughMaterial
+  rw [material_eq p.board hb hc]
+
+/-- the full statement for the geometric predicates (kept visible): both halves are proved above (`C07_check`,
+    `C07_material`) under explicit hypotheses that `Spec.wf` implies; the driver evaluates those hypotheses at every
+    state line, so the remaining gap is only the implication wf ⇒ hypotheses -/
 def C07_geometry_Statement : Prop :=
   ∀ (T : ZTable) (s : String), let p := ofFen T s
     Spec.wf ⟨p.board, p.side, p.castling, p.ep, p.halfmove, 1⟩ = true →
